@@ -969,7 +969,7 @@ def tv_closed_forms(ctx, lean):
                 if math.isfinite(e):
                     near_end |= np.abs(x - e) <= 8 * FEPS * mag
             inside = (x >= lo_s) & (x <= hi_s)
-            rt = {'uniform': 1e-14, 'norm': 5e-13, 'loglaplace': 1e-12, 'truncnorm': 1e-10}[fam] + 16 * FEPS / D
+            rt = {'uniform': 1e-14, 'norm': 5e-13, 'loglaplace': 1e-12, 'truncnorm': 2e-12}[fam] + 16 * FEPS / D
             with np.errstate(all='ignore'):
                 ref = {'pdf': mc.pdf(x, **pr), 'cdf': mc.cdf(x, **pr), 'logpdf': mc.logpdf(x, **pr), 'ppf': mc.ppf(q, **pr)}
             for fn in ('pdf', 'cdf', 'logpdf', 'ppf'):
